@@ -17,8 +17,7 @@ struct SymStr<const N: usize> {
 }
 impl<const N: usize> SymStr<N> {
     fn new() -> Self {
-        let n = any_usize();
-        assume(n <= N);
+        let n = any_usize_in(0, N + 1);
         let mut s = SymStr { buf: [0; 16], len: 0, chars: ['a'; N], n };
         let mut i = 0;
         while i < N {
@@ -95,66 +94,77 @@ pub fn c09_desc_new_checks_names() {
     std::mem::forget(r);
 }
 
-/// Label-name pool. All names have the same length (2 bytes) so that every `String` built from
-/// a symbolic choice has a concrete length (symbolic allocation sizes blow CBMC up).
-fn pool_name(k: u8) -> &'static str {
+/// Label-name pool: aa bb cc le 9x a- (all 2 bytes, so every `String` has a concrete length;
+/// the name is an array value chosen symbolically, not a pointer chosen symbolically).
+fn pool_bytes(k: u8) -> [u8; 2] {
     match k {
-        0 => "aa",
-        1 => "bb",
-        2 => "cc",
-        3 => "le",
-        4 => "9x",
-        _ => "a-",
+        0 => *b"aa",
+        1 => *b"bb",
+        2 => *b"cc",
+        3 => *b"le",
+        4 => *b"9x",
+        _ => *b"a-",
     }
+}
+fn pool_string(k: u8) -> String {
+    let b = pool_bytes(k);
+    unsafe { String::from_utf8_unchecked(vec![b[0], b[1]]) }
 }
 fn pool_valid(k: u8) -> bool {
     k <= 3
 }
+fn any_k() -> u8 {
+    any_u8_below(6)
+}
 
-/// Duplicate detection across const and variable labels (names from a pool, map form).
-#[cfg_attr(kani, kani::proof, kani::unwind(8),
+/// Duplicate detection across one const and two variable labels (names symbolic from the pool).
+#[cfg_attr(kani, kani::proof, kani::unwind(6),
     kani::stub(std::fmt::format, fmt_stub))]
 pub fn c09_desc_new_rejects_duplicate_label_names() {
-    let (c1, v1, v2) = (any_u8(), any_u8(), any_u8());
-    assume(c1 < 6 && v1 < 6 && v2 < 6);
-    let nvar = any_u8();
-    assume(nvar <= 2);
-    let has_const = any_bool();
+    let (c1, v1, v2) = (any_k(), any_k(), any_k());
     let mut cl = HashMap::new();
-    if has_const {
-        cl.insert(String::from(pool_name(c1)), String::from("1"));
-    }
-    let mut vl = Vec::new();
-    if nvar >= 1 {
-        vl.push(String::from(pool_name(v1)));
-    }
-    if nvar >= 2 {
-        vl.push(String::from(pool_name(v2)));
-    }
-    let valid = (!has_const || pool_valid(c1)) && (nvar < 1 || pool_valid(v1)) && (nvar < 2 || pool_valid(v2));
-    let dup = (has_const && nvar >= 1 && c1 == v1) || (has_const && nvar >= 2 && c1 == v2) || (nvar >= 2 && v1 == v2);
+    cl.insert(pool_string(c1), String::from("1"));
+    let vl = vec![pool_string(v1), pool_string(v2)];
+    let valid = pool_valid(c1) && pool_valid(v1) && pool_valid(v2);
+    let dup = c1 == v1 || c1 == v2 || v1 == v2;
     let r = Desc::new(String::from("m"), String::from("h"), vl, cl);
-    vcover!(valid && dup, "c09.dup: duplicate among valid names");
-    vcover!(valid && !dup && has_const && nvar == 2, "c09.dup: three distinct names accepted");
+    vcover!(valid && c1 == v2 && v1 != v2, "c09.dup: a variable label repeats the const label's name");
+    vcover!(valid && !dup, "c09.dup: three distinct names accepted");
+    assert!(r.is_ok() == (valid && !dup), "C09 a label name occurring twice among const and variable labels is rejected");
+    std::mem::forget(r);
+}
+
+/// Two const labels + one variable label.
+#[cfg_attr(kani, kani::proof, kani::unwind(6),
+    kani::stub(std::fmt::format, fmt_stub))]
+pub fn c09_desc_new_two_const_one_variable() {
+    let (c1, c2, v1) = (any_k(), any_k(), any_k());
+    assume(c1 != c2); // a map cannot hold the same key twice
+    let mut cl = HashMap::new();
+    cl.insert(pool_string(c1), String::from("1"));
+    cl.insert(pool_string(c2), String::from("2"));
+    let valid = pool_valid(c1) && pool_valid(c2) && pool_valid(v1);
+    let dup = c1 == v1 || c2 == v1;
+    let r = Desc::new(String::from("m"), String::from("h"), vec![pool_string(v1)], cl);
+    vcover!(valid && dup, "c09.dup2: variable label repeats a const label");
     assert!(r.is_ok() == (valid && !dup), "C09 a label name occurring twice among const and variable labels is rejected");
     std::mem::forget(r);
 }
 
 /// Histograms reject the reserved label name `le` (const or variable).
-#[cfg_attr(kani, kani::proof, kani::unwind(8),
-    kani::stub(std::fmt::format, fmt_stub))]
+#[cfg_attr(kani, kani::proof, kani::unwind(6),
+    kani::stub(std::fmt::format, fmt_stub),
+    kani::stub(<[crate::proto::LabelPair]>::sort, sort_stub))]
 pub fn c09_histogram_rejects_le() {
-    let (c1, v1) = (any_u8(), any_u8());
+    let (c1, v1) = (any_k(), any_k());
     assume(c1 < 4 && v1 < 4 && c1 != v1);
-    let use_const = any_bool();
     let mut opts = crate::histogram::HistogramOpts::new("m", "h").buckets(vec![1.0]);
-    if use_const {
-        opts = opts.const_label(pool_name(c1), "1");
-    }
-    opts = opts.variable_label(pool_name(v1));
+    opts.common_opts.const_labels.insert(pool_string(c1), String::from("1"));
+    opts.common_opts.variable_labels.push(pool_string(v1));
     let r = crate::histogram::HistogramCore::new(&opts, &["x"]);
-    let has_le = (use_const && c1 == 3) || v1 == 3;
-    vcover!(has_le, "c09.le: le present");
+    let has_le = c1 == 3 || v1 == 3;
+    vcover!(c1 == 3, "c09.le: const le");
+    vcover!(v1 == 3, "c09.le: variable le");
     assert!(r.is_ok() == !has_le, "C09 histograms reject the reserved label name le");
     std::mem::forget(r);
 }
@@ -165,6 +175,7 @@ pub fn dispatch(name: &str) -> Option<fn()> {
         "c09_label_name_regex_3chars" => c09_label_name_regex_3chars,
         "c09_desc_new_checks_names" => c09_desc_new_checks_names,
         "c09_desc_new_rejects_duplicate_label_names" => c09_desc_new_rejects_duplicate_label_names,
+        "c09_desc_new_two_const_one_variable" => c09_desc_new_two_const_one_variable,
         "c09_histogram_rejects_le" => c09_histogram_rejects_le,
         _ => return None,
     })
